@@ -370,6 +370,12 @@ func c05Dests(r *rand.Rand, port int, names map[string]func(qtype uint16, nth in
 	host("private-then-public", static(priv, p4), "dontcare", "dns/private-then-public", p4)
 	host("public-then-private", static(p4, priv), "dontcare", "dns/public-then-private", p4)
 	host("private4-public6", static(priv, p6), "dontcare", "dns/private4-public6", p6)
+	// no allowed IPv4 answer, an allowed IPv6 one, and forbidden answers of either family around it
+	// (whatever order the resolver sorts them into)
+	host("loopback4-public6", static(net.IPv4(127, 0, 0, 1), p6), "dontcare", "dns/loopback4-public6", p6)
+	host("public6-ula6", static(p6, priv6), "dontcare", "dns/public6-ula6", p6)
+	host("ula6-public6-loopback6", static(priv6, p6, net.IPv6loopback), "dontcare", "dns/ula6-public6-loopback6", p6)
+	host("public6-cgnat4-private4", static(p6, net.IPv4(100, 64+rb()%64, rb(), 1+rb()%250), priv), "dontcare", "dns/public6-cgnat4-private4", p6)
 	// the first answer is public but cannot be connected to; the proxy then tries the next answers,
 	// and each of them must be judged on its own
 	unreach := net.IPv4(45, 99, 99, byte(1+r.Intn(250)))
@@ -826,8 +832,16 @@ func init() {
 			}
 			return 4
 		},
-		Parallel:          func(t string) int { return 16 },
-		Timeout:           func(t string) time.Duration { return 40 * time.Minute },
+		Parallel: func(t string) int { return 16 },
+		Timeout:  func(t string) time.Duration { return 40 * time.Minute },
+		RaceUpgrade: func(report string) (string, bool) {
+			// The destination policy is shared by every connection and datagram. A data race inside it
+			// (the package outline-ss-server/net) means its answer for some address is undefined.
+			if strings.Contains(report, "outline-ss-server/net.") {
+				return "C05/destination-policy-state-accessed-without-synchronisation", true
+			}
+			return "", false
+		},
 		ExhaustiveCounter: "ipv4_addresses_enumerated",
 		ExhaustiveMin:     1 << 32,
 		Run: func(c *vk.Ctx) {
